@@ -54,7 +54,7 @@ func collectFields(reqCtx *OperationContext, selSet ast.SelectionSet, satisfies 
 			if !shouldIncludeNode(sel.Directives, reqCtx.Variables) {
 				continue
 			}
-			shouldDefer, label := deferrable(sel.Directives, reqCtx.Variables)
+			shouldDefer, label := deferrableIn(reqCtx, sel.Directives)
 
 			for _, childField := range collectFields(reqCtx, sel.SelectionSet, satisfies, visited) {
 				f := getOrCreateAndAppendField(
@@ -91,7 +91,7 @@ func collectFields(reqCtx *OperationContext, selSet ast.SelectionSet, satisfies 
 				continue
 			}
 
-			shouldDefer, label := deferrable(sel.Directives, reqCtx.Variables)
+			shouldDefer, label := deferrableIn(reqCtx, sel.Directives)
 
 			for _, childField := range collectFields(reqCtx, fragment.SelectionSet, satisfies, visited) {
 				f := getOrCreateAndAppendField(&groupedFields,
@@ -177,6 +177,16 @@ func shouldIncludeNode(directives ast.DirectiveList, variables map[string]any) b
 	}
 
 	return !skip && include
+}
+
+// deferrableIn honours @defer only for query operations: the generated executor delivers
+// deferred groups only from the query response handler, so deferring fields of a mutation or
+// subscription would leave them undelivered (and their goroutines blocked) forever.
+func deferrableIn(reqCtx *OperationContext, directives ast.DirectiveList) (shouldDefer bool, label string) {
+	if reqCtx.Operation != nil && reqCtx.Operation.Operation != ast.Query {
+		return false, ""
+	}
+	return deferrable(directives, reqCtx.Variables)
 }
 
 func deferrable(directives ast.DirectiveList, variables map[string]any) (shouldDefer bool, label string) {
